@@ -90,6 +90,20 @@ func vfRoutingMicroScripts(property string) []vfMicroScript {
 			{Name: "source-stream-ends-then-reopen-fails", Scenario: base("micro-c08-F", 0), Setup: []string{"openT:1", "openT:2", "@baseline", "openS:1"},
 				Steps: []string{"breakSin:1", "failopenS:1", "openS:1", "breakSin:1"}},
 		}
+	case "C20":
+		// stream opens that coincide (many shard streams reopen together after a restart or a failover): the bookkeeping
+		// one open does may not corrupt what the others do. The writes of the shard manager's tables are windows with a
+		// scheduling point inside (rule mapwrite).
+		return []vfMicroScript{
+			{Name: "two-target-streams-and-the-source-stream-open-at-once", Scenario: base("micro-c20-O", 0), Setup: nil,
+				Steps: []string{"openT:1", "openT:2", "openS:1"}},
+			{Name: "a-target-stream-opens-while-another-ends", Scenario: base("micro-c20-E", 0), Setup: []string{"openT:1", "openS:1"},
+				Steps: []string{"breakT:1", "openT:2"}},
+			// a stream is opened with the ids of a stream that is still up (an initiator that reconnects before the proxy has
+			// noticed the old stream's end): the new stream is served - tasks relayed on it are acknowledged to the end
+			{Name: "source-stream-reopened-with-the-ids-of-a-live-stream", Scenario: base("micro-c20-R", 0), Setup: []string{"openT:1", "openT:2", "openS:1"},
+				Steps: []string{"reopenS:1", "emit:1", "breakOldSin:1"}},
+		}
 	case "C04":
 		return []vfMicroScript{
 			// a target stream breaks while a task for it is being routed, then reconnects
@@ -251,6 +265,10 @@ func vfRoutingMicroBody(ms vfMicroScript, property string) func(s *vrt.Sched) (s
 			}
 			return "stuck/livelock-within-horizon", fmt.Sprintf("after %d scheduling decisions the execution is still running; last steps: %v", len(s.Points), tail), "livelock"
 		}
+		if len(s.MapRaces) > 0 {
+			// (rule mapwrite) in production the runtime ends the process: "fatal error: concurrent map writes"
+			return "crash/concurrent-map-writes", fmt.Sprintf("two goroutines are inside a write of the same bookkeeping map at once: %v", s.MapRaces), "maprace"
+		}
 		s.Detach()
 		synctest.Wait()
 		if property == "C08" {
@@ -349,6 +367,11 @@ func vfRoutingMicroBody(ms vfMicroScript, property string) func(s *vrt.Sched) (s
 			}
 		}
 		for _, v := range e.viol {
+			if property == "C20" && v.Property == "C03" && strings.HasPrefix(v.Signature, "final-ack-never-arrives") {
+				// a stream opened with the ids of a stream that is still up is a stream "opened afterwards": it is served normally,
+				// i.e. what it relays gets acknowledged
+				return "later-stream-not-served/" + v.Signature, v.Detail + "\ntrace:\n  " + strings.Join(e.events, "\n  "), outcome
+			}
 			if v.Property == property || (property == "C04" && v.Property == "C02" && strings.HasPrefix(v.Signature, "task-delivered-0")) ||
 				(property == "C05" && v.Signature == "ack-incomplete-although-the-only-target-confirmed-every-task") {
 				return v.Signature, v.Detail + "\ntrace:\n  " + strings.Join(e.events, "\n  "), outcome
@@ -610,3 +633,7 @@ func TestVerifC05Micro(t *testing.T) { vfRoutingMicro(t, "C05", "TestVerifC05Mic
 
 // TestVerifC08Routing: overlapping stream incarnations on the real routing handlers (third part of C08).
 func TestVerifC08Routing(t *testing.T) { vfRoutingMicro(t, "C08", "TestVerifC08Routing") }
+
+// TestVerifC20Opens: coinciding stream opens on the real routing handlers, with the writes of the shard manager's
+// tables as windows (third part of C20).
+func TestVerifC20Opens(t *testing.T) { vfRoutingMicro(t, "C20", "TestVerifC20Opens") }
